@@ -78,6 +78,30 @@ def policyTab : Nat := 102
 def mgmtTab : Nat := 103
 /-- Policy's blocked-account list: key = account, present = blocked. -/
 def blockTab : Nat := 104
+/-- RoleManagement: key = role, value = the node list designated in the persisting block. -/
+def roleTab : Nat := 105
+/-- Policy whitelisted fee of `run` of contract key. -/
+def wlTab : Nat := 106
+/-- NEO: balances 101, 111 = "BalanceHeight is the persisting block", 112 = GAS reward the account gets
+    when it is first touched in this block (computed by the node before the block), 113 = votes for
+    the candidate, 114 = the candidate's votes, 115 = voters count, 116 = GAS reward computed by the
+    running native call and not yet minted. -/
+def neoTab : Nat := 101
+def neoHTab : Nat := 111
+def rewardTab : Nat := 112
+def voteTab : Nat := 113
+def candTab : Nat := 114
+def votersTab : Nat := 115
+def pendTab : Nat := 116
+/-- Notary deposits: key = owner. -/
+def notaryTab : Nat := 117
+def notaryAcc : Nat := 12
+/-- first Notary deposit must be at least 2 * NotaryAssisted attribute fee. -/
+def minDeposit : Nat := 20000000
+
+/-- a deployed, not destroyed contract (ic.GetContract succeeds). -/
+def alive (view : Key → Option Nat) (c : Nat) : Bool :=
+  c < 4 && (view (mgmtTab, 100 + c)).isNone
 /-- Policy.setFeePerByte upper bound (native_policy.go maxFeePerByte). -/
 def maxFeePerByte : Nat := 100000000
 
@@ -91,6 +115,24 @@ inductive NOp where
   | unblock (a : Nat)
   /-- `ContractManagement.deploy(nef_d, manifest_d)` of the auxiliary contract `d`. -/
   | deploy (d : Nat)
+  /-- `ContractManagement.update(nil, manifest')` / `destroy()` of the calling contract. -/
+  | update
+  | destroy
+  /-- `RoleManagement.designateAsRole(role, nodes_v)`. -/
+  | designate (role v : Nat)
+  /-- `Policy.setWhitelistFeeContract(c, "run", 1, fee)` / `removeWhitelistFeeContract`. -/
+  | setWl (c fee : Nat)
+  | delWl (c : Nat)
+  /-- `NEO.transfer(self, to, amt, data)` without the deferred GAS minting (see `mint`). -/
+  | neoXfer (to amt : Nat) (isC : Bool)
+  /-- `NEO.vote(self, candidate | null)` without the deferred GAS minting. -/
+  | vote (on : Bool)
+  /-- the deferred part of a NEO method: mint the reward computed before (GAS.MintDeferrable with
+      onNEP17Payment(null, amount, null)); `who = 99` is the calling contract. -/
+  | mint (who : Nat)
+  /-- the first part of `Policy.blockAccount(a)` (HFFaun): `NEO.RevokeVotes(a)` unless `a` is blocked
+      already; its deferred GAS minting is `mint a`, the block itself is `block a`. -/
+  | revoke (a : Nat)
   deriving Repr, DecidableEq
 
 inductive Tree where
@@ -125,7 +167,17 @@ structure NatOut where
   ws : List Write       -- newest first
   evs : List Event
   cb : Option Nat       -- contract whose onNEP17Payment is invoked
+  cbAbort : Bool := false  -- the (native) payment callback panics
   deriving Repr
+
+/-- first touch of a NEO account in the persisting block (native_neo.go distributeGas): the
+    reward is computed and scheduled, BalanceHeight becomes the block index. -/
+def neoTouch (view : Key → Option Nat) (a : Nat) : List Write :=
+  match view (neoHTab, a) with
+  | some _ => []
+  | none =>
+    let r := (view (rewardTab, a)).getD 0
+    (if r = 0 then [] else [.set (pendTab, a) r]) ++ [.set (neoHTab, a) 1]
 
 /-- `none` = the native method panics (FAULT). -/
 def natStep (o : NOp) (self : Nat) (f : Flags) (view : Key → Option Nat) : Option NatOut :=
@@ -134,31 +186,39 @@ def natStep (o : NOp) (self : Nat) (f : Flags) (view : Key → Option Nat) : Opt
     -- native_nep17.go: RequiredFlags States|AllowCall|AllowNotify
     if !(f.r && f.w && f.c && f.n) then none else
     -- the entry script cannot witness the `from` account the harness passes (zero hash): `false`
-    if self = entryId then some ⟨[], [], none⟩ else
+    if self = entryId then some ⟨[], [], none, false⟩ else
     let tab := gasTab + tok
     let bal := (view (tab, self)).getD 0
     -- transferDeferrable: insufficient funds => `false`, nothing happens
-    if bal < amt then some ⟨[], [], none⟩ else
+    if bal < amt then some ⟨[], [], none, false⟩ else
     let ws : List Write :=
       if self = to ∨ amt = 0 then [] else
         [.set (tab, to) ((view (tab, to)).getD 0 + amt), .set (tab, self) (bal - amt)]
-    some ⟨ws, [(tab, amt)], if isC then some to else none⟩
+    if to = notaryAcc then
+      -- notary.go onPayment (a native callback, data = [null, till]): first deposit >= 2*fee
+      match view (notaryTab, self) with
+      | none =>
+        if amt < minDeposit then some ⟨ws, [(tab, amt)], some to, true⟩
+        else some ⟨.set (notaryTab, self) amt :: ws, [(tab, amt)], some to, false⟩
+      | some d => some ⟨.set (notaryTab, self) (d + amt) :: ws, [(tab, amt)], some to, false⟩
+    else
+    some ⟨ws, [(tab, amt)], if isC && alive view to then some to else none, false⟩
   | .setFee v =>
     -- native_policy.go: RequiredFlags States; value range check panics
     if !(f.r && f.w) then none else
     if v > maxFeePerByte then none else
-    some ⟨[.set (policyTab, 0) v], [], none⟩
+    some ⟨[.set (policyTab, 0) v], [], none, false⟩
   | .block a =>
     -- policy.go blockAccountDeferrable: RequiredFlags States|AllowNotify (HFFaun); already blocked => `false`
     if !(f.r && f.w && f.n) then none else
     match view (blockTab, a) with
-    | some _ => some ⟨[], [], none⟩
-    | none => some ⟨[.set (blockTab, a) 1], [], none⟩
+    | some _ => some ⟨[], [], none, false⟩
+    | none => some ⟨[.set (blockTab, a) 1], [], none, false⟩
   | .unblock a =>
     if !(f.r && f.w) then none else
     match view (blockTab, a) with
-    | some _ => some ⟨[.del (blockTab, a)], [], none⟩
-    | none => some ⟨[], [], none⟩
+    | some _ => some ⟨[.del (blockTab, a)], [], none, false⟩
+    | none => some ⟨[], [], none, false⟩
   | .deploy d =>
     -- management.go: RequiredFlags All; "contract already exists" panics; the ID comes from the
     -- nextAvailableID storage item, which is incremented
@@ -167,7 +227,99 @@ def natStep (o : NOp) (self : Nat) (f : Flags) (view : Key → Option Nat) : Opt
     | some _ => none
     | none =>
       let id := (view (mgmtTab, 99)).getD 0
-      some ⟨[.set (mgmtTab, 99) (id + 1), .set (mgmtTab, d) id], [(mgmtTab, d)], none⟩
+      some ⟨[.set (mgmtTab, 99) (id + 1), .set (mgmtTab, d) id], [(mgmtTab, d)], none, false⟩
+  | .update =>
+    -- management.go Update: RequiredFlags All; the whitelist entries of the contract are removed
+    if !(f.r && f.w && f.c && f.n) then none else
+    if !alive view self then none else
+    let cnt := (view (mgmtTab, 200 + self)).getD 0
+    match view (wlTab, self) with
+    | some _ => some ⟨[.set (mgmtTab, 200 + self) (cnt + 1), .del (wlTab, self)], [(wlTab, self), (mgmtTab, 200 + self)], none, false⟩
+    | none => some ⟨[.set (mgmtTab, 200 + self) (cnt + 1)], [(mgmtTab, 200 + self)], none, false⟩
+  | .destroy =>
+    -- management.go destroyDeferrableV1: block the hash, clean the whitelist, erase contract and storage
+    if !(f.r && f.w && f.n) then none else
+    if !alive view self then none else
+    let erase : List Write := [.set (mgmtTab, 100 + self) 1, .del (self, 3), .del (self, 2), .del (self, 1), .del (self, 0)]
+    match view (wlTab, self) with
+    | some _ => some ⟨erase ++ [.del (wlTab, self), .set (blockTab, self) 1], [(wlTab, self), (mgmtTab, 100 + self)], none, false⟩
+    | none => some ⟨erase ++ [.set (blockTab, self) 1], [(mgmtTab, 100 + self)], none, false⟩
+  | .designate role v =>
+    -- designate.go: RequiredFlags States|AllowNotify; a second designation in the same block panics
+    if !(f.r && f.w && f.n) then none else
+    match view (roleTab, role) with
+    | some _ => none
+    | none => some ⟨[.set (roleTab, role) v], [(roleTab, role)], none, false⟩
+  | .setWl c fee =>
+    if !(f.r && f.w && f.n) then none else
+    if !alive view c then none else
+    some ⟨[.set (wlTab, c) fee], [(wlTab, c)], none, false⟩
+  | .delWl c =>
+    if !(f.r && f.w && f.n) then none else
+    if !alive view c then none else
+    match view (wlTab, c) with
+    | some _ => some ⟨[.del (wlTab, c)], [(wlTab, c)], none, false⟩
+    | none => none
+  | .neoXfer to amt isC =>
+    if !(f.r && f.w && f.c && f.n) then none else
+    if self = entryId then some ⟨[], [], none, false⟩ else
+    let cb : Option Nat := if isC && alive view to then some to else none
+    match view (neoTab, self) with
+    | none => if amt = 0 then some ⟨[], [(neoTab, 0)], cb, false⟩ else some ⟨[], [], none, false⟩
+    | some bal =>
+      if bal < amt then some ⟨[], [], none, false⟩ else
+      let touchF := neoTouch view self
+      if self = to ∨ amt = 0 then some ⟨touchF, [(neoTab, amt)], cb, false⟩ else
+      let voting := (view (voteTab, self)).isSome
+      let votesF : List Write := if voting then
+        [.set (votersTab, 0) ((view (votersTab, 0)).getD 0 - amt), .set (candTab, 0) ((view (candTab, 0)).getD 0 - amt)] else []
+      let balF : List Write := if bal = amt then [.del (voteTab, self), .del (neoHTab, self), .del (neoTab, self)]
+        else [.set (neoTab, self) (bal - amt)]
+      -- the receiver (reads happen after the sender's writes; only the candidate/voters counters overlap)
+      let cand1 := if voting then (view (candTab, 0)).getD 0 - amt else (view (candTab, 0)).getD 0
+      let voters1 := if voting then (view (votersTab, 0)).getD 0 - amt else (view (votersTab, 0)).getD 0
+      let toW : List Write :=
+        match view (neoTab, to) with
+        | none => [.set (neoTab, to) amt, .set (neoHTab, to) 1]
+        | some tb =>
+          (.set (neoTab, to) (tb + amt)) ::
+          ((if (view (voteTab, to)).isSome then [.set (votersTab, 0) (voters1 + amt), .set (candTab, 0) (cand1 + amt)] else [])
+            ++ neoTouch view to)
+      some ⟨toW ++ balF ++ votesF ++ touchF, [(neoTab, amt)], cb, false⟩
+  | .vote on =>
+    if !(f.r && f.w && f.n) then none else
+    if self = entryId then some ⟨[], [], none, false⟩ else
+    match view (neoTab, self) with
+    | none => some ⟨[], [], none, false⟩
+    | some bal =>
+      let old := (view (voteTab, self)).isSome
+      let voters := (view (votersTab, 0)).getD 0
+      let cand := (view (candTab, 0)).getD 0
+      let wVoters : List Write := if old = on then [] else [.set (votersTab, 0) (if on then voters + bal else voters - bal)]
+      let wCand : List Write := if old = on then [] else [.set (candTab, 0) (if on then cand + bal else cand - bal)]
+      let wVote : List Write := if on then [.set (voteTab, self) 1] else [.del (voteTab, self)]
+      some ⟨wVote ++ wCand ++ neoTouch view self ++ wVoters, [(voteTab, self)], none, false⟩
+  | .revoke a =>
+    if !(f.r && f.w && f.n) then none else
+    match view (blockTab, a) with
+    | some _ => some ⟨[], [], none, false⟩
+    | none =>
+      match view (neoTab, a) with
+      | none => some ⟨[], [], none, false⟩
+      | some bal =>
+        let old := (view (voteTab, a)).isSome
+        let wVoters : List Write := if old then [.set (votersTab, 0) ((view (votersTab, 0)).getD 0 - bal)] else []
+        let wCand : List Write := if old then [.set (candTab, 0) ((view (candTab, 0)).getD 0 - bal)] else []
+        some ⟨.del (voteTab, a) :: (wCand ++ neoTouch view a ++ wVoters), [(voteTab, a)], none, false⟩
+  | .mint who =>
+    -- runs inside a NEO method (at least States|AllowNotify)
+    if !(f.r && f.w && f.n) then none else
+    let a := if who = 99 then self else who
+    match view (pendTab, a) with
+    | none => some ⟨[], [], none, false⟩
+    | some r =>
+      some ⟨[.set (gasTab, a) ((view (gasTab, a)).getD 0 + r), .del (pendTab, a)], [(gasTab, r)],
+        if alive view a then some a else none, false⟩
 
 /-! ## Specification semantics -/
 
@@ -198,19 +350,19 @@ def sp : Tree → (c : Nat) → (f : Flags) → St → Res St
     | .norm s1 => sp b c f s1
     | r => r
   | .put k v, c, f, s =>
-    if f.r && f.w && c != entryId then .norm { s with σ := .set (c, k) v :: s.σ } else .fault s
+    if f.r && f.w && alive s.σ.get c then .norm { s with σ := .set (c, k) v :: s.σ } else .fault s
   | .del k, c, f, s =>
-    if f.r && f.w && c != entryId then .norm { s with σ := .del (c, k) :: s.σ } else .fault s
+    if f.r && f.w && alive s.σ.get c then .norm { s with σ := .del (c, k) :: s.σ } else .fault s
   | .notify e, c, f, s =>
     if f.n && c != entryId then .norm { s with ev := s.ev ++ [(c, e)] } else .fault s
   | .ifp k body, c, f, s =>
-    if f.r && c != entryId then
+    if f.r && alive s.σ.get c then
       match s.σ.get (c, k) with
       | some _ => sp body c f s
       | none => .norm s
     else .fault s
   | .call c' fl body, _, f, s =>
-    if f.r && f.c then
+    if f.r && f.c && alive s.σ.get c' then
       match sp body c' (f.and fl) s with
       | .norm s1 => .norm s1
       | .thrown _ => .thrown { s with exc := true }   -- the callee's effects are gone
@@ -241,9 +393,100 @@ def sp : Tree → (c : Nat) → (f : Flags) → St → Res St
         match out.cb with
         | none => .norm s1
         | some to =>
+          if out.cbAbort then .fault s1 else
           match sp cb to f' s1 with
           | .norm s2 => .norm s2
           | .thrown s2 => .fault s2     -- an exception may not cross a native frame
+          | .fault s2 => .fault s2
+    else .fault s
+
+/-! ## The specification with the known deviation built in
+
+`spK` is `sp` with ONE rule changed, the commit rule of `unloadContext` (vm.go:1896,
+`commit = v.uncaughtException == nil`): a callee that has its own DAO layer (the caller has an
+active TRY and the callee may write or notify), or a native payment callback, that completes
+NORMALLY while an exception is pending is not committed: its changes and notifications are
+dropped (callback: the transaction faults). Whenever that rule is applied the flag `dev` is
+raised. `inTry` is threaded exactly as ContractHasTryBlock sees it. The implementation model is
+proved equal to `spK` for EVERY tree, and `spK` equal to `sp` whenever `dev` stays down. -/
+
+structure KSt where
+  σ : Log
+  ev : List Event
+  exc : Bool
+  dev : Bool            -- the deviating rule has been applied
+  deriving Repr
+
+def KSt.st (k : KSt) : St := ⟨k.σ, k.ev, k.exc⟩
+
+def spKEnd (hasF : Bool) (rf : KSt → Res KSt) (s : KSt) : Res KSt :=
+  if hasF then
+    match rf s with
+    | .norm s3 => if s3.exc then .thrown s3 else .norm s3
+    | r => r
+  else .norm s
+
+def spKFinExc (rf : KSt → Res KSt) (s : KSt) : Res KSt :=
+  match rf s with
+  | .norm s3 => if s3.exc then .thrown s3 else .fault s3
+  | r => r
+
+def spK : Tree → (c : Nat) → (f : Flags) → (inTry : Bool) → KSt → Res KSt
+  | .skip, _, _, _, s => .norm s
+  | .seq a b, c, f, t, s =>
+    match spK a c f t s with
+    | .norm s1 => spK b c f t s1
+    | r => r
+  | .put k v, c, f, _, s =>
+    if f.r && f.w && alive s.σ.get c then .norm { s with σ := .set (c, k) v :: s.σ } else .fault s
+  | .del k, c, f, _, s =>
+    if f.r && f.w && alive s.σ.get c then .norm { s with σ := .del (c, k) :: s.σ } else .fault s
+  | .notify e, c, f, _, s =>
+    if f.n && c != entryId then .norm { s with ev := s.ev ++ [(c, e)] } else .fault s
+  | .ifp k body, c, f, t, s =>
+    if f.r && alive s.σ.get c then
+      match s.σ.get (c, k) with
+      | some _ => spK body c f t s
+      | none => .norm s
+    else .fault s
+  | .call c' fl body, _, f, t, s =>
+    if f.r && f.c && alive s.σ.get c' then
+      match spK body c' (f.and fl) false s with
+      | .norm s1 =>
+        -- THE RULE: own layer + pending exception => not committed
+        if t && (f.and fl).mut && s1.exc then .norm { s with exc := true, dev := true } else .norm s1
+      | .thrown s1 => .thrown { s with exc := true, dev := s1.dev }
+      | .fault s1 => .fault s1
+    else .fault s
+  | .loc body, c, f, t, s => spK body c f t s
+  | .try_ body hasC cat hasF fin, c, f, t, s =>
+    if !hasC && !hasF then .fault s else
+    match spK body c f true s with
+    | .norm s1 => spKEnd hasF (spK fin c f t) s1
+    | .thrown s1 =>
+      if hasC then
+        match spK cat c f (t || hasF) { s1 with exc := false } with
+        | .norm s2 => spKEnd hasF (spK fin c f t) s2
+        | .thrown s2 => if hasF then spKFinExc (spK fin c f t) s2 else .thrown s2
+        | .fault s2 => .fault s2
+      else spKFinExc (spK fin c f t) s1
+    | .fault s1 => .fault s1
+  | .throw, _, _, _, s => .thrown { s with exc := true }
+  | .abort, _, _, _, s => .fault s
+  | .native o fl cb, c, f, t, s =>
+    if f.r && f.c then
+      let f' := f.and fl
+      match natStep o c f' s.σ.get with
+      | none => .fault s
+      | some out =>
+        let s1 : KSt := { s with σ := out.ws ++ s.σ, ev := s.ev ++ out.evs }
+        match out.cb with
+        | none => if t && f'.mut && s.exc then .norm { s with dev := true } else .norm s1
+        | some to =>
+          if out.cbAbort then .fault s1 else
+          match spK cb to f' false s1 with
+          | .norm s2 => if s2.exc then .fault { s2 with dev := true } else .norm s2
+          | .thrown s2 => .fault s2
           | .fault s2 => .fault s2
     else .fault s
 
@@ -312,19 +555,19 @@ def im : Tree → Ctx → ISt → Res ISt
     | .norm s1 => im b x s1
     | r => r
   | .put k v, x, s =>
-    if x.f.r && x.f.w && x.c != entryId then .norm { s with top := .set (x.c, k) v :: s.top } else .fault s
+    if x.f.r && x.f.w && alive s.view.get x.c then .norm { s with top := .set (x.c, k) v :: s.top } else .fault s
   | .del k, x, s =>
-    if x.f.r && x.f.w && x.c != entryId then .norm { s with top := .del (x.c, k) :: s.top } else .fault s
+    if x.f.r && x.f.w && alive s.view.get x.c then .norm { s with top := .del (x.c, k) :: s.top } else .fault s
   | .notify e, x, s =>
     if x.f.n && x.c != entryId then .norm { s with ev := s.ev ++ [(x.c, e)] } else .fault s
   | .ifp k body, x, s =>
-    if x.f.r && x.c != entryId then
+    if x.f.r && alive s.view.get x.c then
       match s.view.get (x.c, k) with
       | some _ => im body x s
       | none => .norm s
     else .fault s
   | .call c' fl body, x, s =>
-    if x.f.r && x.f.c then
+    if x.f.r && x.f.c && alive s.view.get c' then
       let f' := x.f.and fl
       let wrapped := x.inTry && f'.mut
       let base := s.ev.length
@@ -362,6 +605,7 @@ def im : Tree → Ctx → ISt → Res ISt
         match out.cb with
         | none => .norm (s1.unload wrapped base)
         | some to =>
+          if out.cbAbort then .fault s1 else
           match im cb ⟨to, f', false, x.h⟩ s1 with
           | .norm s2 => if s2.exc then .fault s2 else .norm (s2.unload wrapped base)
           | .thrown s2 => .fault s2
@@ -393,6 +637,14 @@ def specRun (pre : Log) (t : Tree) : Outcome :=
   | .thrown _ => ⟨false, pre, [], []⟩
   | .fault _ => ⟨false, pre, [], []⟩
 
+/-- the specification with the known deviation; the second component tells whether the deviating
+    rule was applied. -/
+def specKRun (pre : Log) (t : Tree) : Outcome × Bool :=
+  match spK t entryId Flags.all false ⟨pre, [], false, false⟩ with
+  | .norm s => (⟨true, s.σ, s.ev, s.ev⟩, s.dev)
+  | .thrown s => (⟨false, pre, [], []⟩, s.dev)
+  | .fault s => (⟨false, pre, [], []⟩, s.dev)
+
 /-- the part of an outcome the property talks about. -/
 def Outcome.eff (o : Outcome) : Bool × Log × List Event := (o.halt, o.store, o.events)
 
@@ -417,6 +669,92 @@ def stepTx (σ : Log) (tx : Tx) : Log := (implRun σ tx.tree).store
 def execAll (σ : Log) (txs : List Tx) : Log := txs.foldl stepTx σ
 
 def blockRun (σ : Log) (txs : List Tx) : Log := execAll (burnAll σ txs) txs
+
+/-! ## Transactions of one block share the VM and nothing else
+
+blockchain.go:2044-2047: every transaction gets a new interop context (`newInteropContext`: a fresh
+private DAO layer over the block cache, an empty notification list, fresh invocation counters) and
+the VM of the previous one after `ReuseVM` = `vm.Reset` (vm.go:189-202: invocation stack,
+evaluation stack, `uncaughtException`, reference counter and gas cleared). What a finished —
+possibly FAULTed — execution leaves behind is an `ISt` (layers still pushed, a pending exception,
+notifications). -/
+
+/-- the state the next transaction starts in. -/
+def txStart (_left : ISt) (σ : Log) : ISt := ⟨[], [σ], [], false⟩
+
+/-- one transaction on the VM left by the previous one: (new block cache, what it leaves). -/
+def stepTxVM (acc : Log × ISt) (tx : Tx) : Log × ISt :=
+  match im tx.tree rootCtx (txStart acc.2 acc.1) with
+  | .norm s => (s.view, s)
+  | .thrown s => (acc.1, s)
+  | .fault s => (acc.1, s)
+
+def blockRunVM (left : ISt) (σ : Log) (txs : List Tx) : Log :=
+  (txs.foldl stepTxVM (burnAll σ txs, left)).1
+
+/-- the same without resetting the pending-exception register (to show the reset is load-bearing). -/
+def txStartNoReset (left : ISt) (σ : Log) : ISt := ⟨[], [σ], [], left.exc⟩
+
+/-! ## Native caches: copy-on-write over the DAO layers (dao.go:105-122, 1052-1137)
+
+Every `dao.Simple` has a map native-id -> cache object (`nativeCache`) and a pointer to the DAO
+it was made from (`nativeCachePS`). Cache objects are heap cells (Go pointers): aliasing is what
+can go wrong, so the model has an explicit heap. A cache object is abstracted to one number. -/
+
+
+/-- `dao.nativeCache`: native id -> reference. -/
+abbrev CLayer := List (Nat × Nat)
+
+structure CStack where
+  heap : Nat → Nat          -- contents of the cells
+  next : Nat                -- next fresh reference
+  layers : List CLayer      -- ic.DAO first, the lowest DAO last
+
+def clookup (l : CLayer) (id : Nat) : Option Nat :=
+  match l with
+  | [] => none
+  | (k, r) :: rest => if k = id then some r else clookup rest id
+
+/-- `GetROCache`: the first layer that has the id. -/
+def roRef : List CLayer → Nat → Option Nat
+  | [], _ => none
+  | l :: rest, id =>
+    match clookup l id with
+    | some r => some r
+    | none => roRef rest id
+
+/-- `getCache(k, ro = false)`: own item, or a fresh COPY of what `nativeCachePS.GetRWCache`
+    returns (which in turn copies into every intermediate layer that lacks the item). -/
+def rwRef : List CLayer → (Nat → Nat) → Nat → Nat → List CLayer × (Nat → Nat) × Nat × Option Nat
+  | [], h, n, _ => ([], h, n, none)
+  | l :: rest, h, n, id =>
+    match clookup l id with
+    | some r => (l :: rest, h, n, some r)
+    | none =>
+      match rwRef rest h n id with
+      | (rest', h', n', none) => (l :: rest', h', n', none)
+      | (rest', h', n', some r) =>
+        (((id, n') :: l) :: rest', (fun x => if x = n' then h' r else h' x), n' + 1, some n')
+
+/-- a native method updates its cache: `GetRWCache(id)` then a field write. -/
+def CStack.write (st : CStack) (id v : Nat) : CStack :=
+  match rwRef st.layers st.heap st.next id with
+  | (ls, h, n, some r) => ⟨(fun x => if x = r then v else h x), n, ls⟩
+  | (ls, h, n, none) => ⟨h, n, ls⟩
+
+def CStack.read (st : CStack) (id : Nat) : Option Nat := (roRef st.layers id).map st.heap
+
+/-- `GetPrivate()`: a new DAO with an EMPTY cache map over the current one. -/
+def CStack.push (st : CStack) : CStack := { st with layers := [] :: st.layers }
+
+/-- dropping ic.DAO (the layer is simply forgotten). -/
+def CStack.drop (st : CStack) : CStack := { st with layers := st.layers.tail }
+
+/-- `persistNativeCache`: `maps.Copy(lower.nativeCache, dao.nativeCache)`. -/
+def CStack.persist (st : CStack) : CStack :=
+  match st.layers with
+  | top :: lower :: rest => { st with layers := (top ++ lower) :: rest }
+  | _ => st
 
 /-! ## Syntactic classes used by the theorems -/
 
